@@ -158,7 +158,7 @@ class ArrayGen:
             extra += [("mk", 6), ("drop", 1.5), ("other", 10)]
         if focus == "fault":
             core = [("add", 10), ("add_at", 6), ("trim_capacity", 4), ("remove_last", 3), ("remove_at", 2), ("filter_mut", 1)]
-            extra = [("mk", 5), ("drop", 2), ("other", 4), ("iter_add_prog", 3), ("zip_add_prog", 2)]
+            extra = [("mk", 5), ("drop", 2), ("other", 4), ("iter_add_prog", 3), ("zip_add_prog", 2), ("zip_same_prog", 0.8)]
         if focus == "growth":
             core = [("add", 30), ("add_at", 6), ("remove_last", 3), ("trim_capacity", 1.5), ("remove_at", 1), ("capacity", 1)]
             extra += [("zip_same_prog", 0.08)]
@@ -346,7 +346,12 @@ class ArrayGen:
         return [["new cap=1 exp=2", "add 1", "add 2", "add_at 3 0", "add_at 4 1", "trim_capacity", "remove_last", "trim_capacity",
                  "mk_sub 0 1 to=1", "add 5 o=1", "mk_copy_shallow to=2", "mk_copy_deep to=3", "drop o=1", "mk_filter to=1",
                  "it_new", "it_next", "it_add 6", "it_next", "it_next", "it_add 7", "destroy"],
-                ["new cap=2 exp=1.1", "add 1", "add 2", "add 3", "add 4", "remove_all", "trim_capacity", "add 9", "add 8", "destroy"]]
+                ["new cap=2 exp=1.1", "add 1", "add 2", "add 3", "add 4", "remove_all", "trim_capacity", "add 9", "add 8", "destroy"],
+                # the same array on both sides of the zip iterator, 1 and 0 free slots (A11)
+                ["new cap=3 exp=2", "add 1", "add 2", "zit_new o=0 p=0", "zit_next", "zit_add 7 8", "zit_next", "zit_add 9 10",
+                 "zit_remove", "zit_next", "destroy"],
+                ["new cap=1 exp=1.5", "add 1", "zit_new o=0 p=0", "zit_add 7 8", "zit_next", "zit_add 9 10", "zit_next", "zit_add 5 6",
+                 "destroy"]]
 
 
 GEN = ArrayGen()
